@@ -65,10 +65,17 @@ def gen(seed: int, tier: str, idx=None):
         if tier == "thorough" and idx is not None and idx % 64 == 5 and cyc == 0:
             g.emit({"op": "new_doc", "rows": 1, "cols": 1, "hr": 0, "hc": 0})
             g.emit({"op": "write", "d": 1, "s": 0, "t": 0, "r": rng.randint(65_536, 70_000), "c": 0, "v": V.enc(g.value())})
+        last = cyc == cycles - 1
         for d in range(len(g.ms.docs)):
             slot = rng.choice(ALL_SLOTS)
             g.emit({"op": "save", "d": d, "slot": slot})
-            g.emit({"op": "restart", "d": d, "slot": slot})
+            # either continue on the reopened file, or keep the same open document and save it again
+            # later (repeated saves of one Document object re-key its lookup lists every time)
+            if last or rng.random() < 0.5:
+                g.emit({"op": "restart", "d": d, "slot": slot, "replace": True})
+            elif rng.random() < 0.5:
+                g.emit({"op": "restart", "d": d, "slot": slot, "replace": False})
+                g.emit({"op": "drop", "d": len(g.ms.docs) - 1})
     return cfg, g.ops
 
 
